@@ -11,22 +11,24 @@ from __future__ import annotations
 
 import numpy as np
 
-from .. import gens, rt, sel
+from .. import forms, gens, rt, sel
 from ..common import Skip, brief
 
 ID = "C06"
 CASES = {"quick": 2400, "thorough": 30000}
 FLOOR = {"quick": 1800, "thorough": 22000}
 FLOOR_COUNTERS = {
-    "quick": {"steps_judged": 80000, "sparse_steps_pruned": 10000, "sparse_steps_pruned_low_switch": 50, "clock_scripted_fits": 3000, "steered_clock_reached_target": 800, "warm_links": 500, "estimators_with_a_past": 2500, "small_unit_cases": 120},
-    "thorough": {"steps_judged": 600000, "sparse_steps_pruned": 80000, "clock_scripted_fits": 15000, "steered_clock_reached_target": 4000, "warm_links": 3000, "estimators_with_a_past": 30000, "small_unit_cases": 1500},
+    "quick": {"steps_judged": 80000, "sparse_steps_pruned": 10000, "sparse_steps_pruned_low_switch": 50, "clock_scripted_fits": 3000, "steered_clock_reached_target": 800, "warm_links": 500, "estimators_with_a_past": 2500, "small_unit_cases": 120, "configured_not_by_constructor": 3000, "non_default_containers": 3000, "carried_by:deepcopy": 150, "carried_by:pickle": 150, "more_than_2048_points": 5},
+    "thorough": {"steps_judged": 600000, "sparse_steps_pruned": 80000, "clock_scripted_fits": 15000, "steered_clock_reached_target": 4000, "warm_links": 3000, "estimators_with_a_past": 30000, "small_unit_cases": 1500, "configured_not_by_constructor": 40000, "non_default_containers": 40000, "carried_by:deepcopy": 2000, "carried_by:pickle": 2000, "more_than_2048_points": 70},
 }
 RULE = (
     "case = point set (uniform / strongly clustered / duplicated / integer lattice / gauss), start int|'random', request "
     "int|float|None, optional warm chain; the same input is fitted under 5-6 switching-point settings drawn from explicit "
     "full_fraction {1e-9,.01,.1,.5,.99,1} and the default calibrated under scripted clocks {zero, monotone walk, backward "
     "steps, alternating huge/tiny, steered to targets 0/.05/.3/.7/1, real}, n_trial_calculation {1,2,4,7}. After every "
-    "step the traced table is compared with the brute-force one. non-trivial = a step ran on the pruned (sparse) branch "
+    "step the traced table is compared with the brute-force one. Every setting is configured by constructor | set_params | "
+    "attribute assignment, fed C | Fortran | strided | read-only | list input, and continues a warm chain on the same object | its "
+    "deep copy | its unpickled copy; one case in 400 has 2049-4500 points. non-trivial = a step ran on the pruned (sparse) branch "
     "with a strictly smaller active set; distinct by hash of data+settings."
 )
 ASSUMPTIONS = [
@@ -50,6 +52,12 @@ def gen(rng, tier, index):
     if big:
         n = int(rng.integers(120, 400))
         kind = gens.pick(rng, ("clustered", "clustered", "uniform"))
+    huge = index % 400 == 7  # more points than any internal block / buffer size one might think of (2048, 4096)
+    if huge:
+        big = True
+        n = int(gens.pick(rng, (2049, 2050, 2300, 4097, 4500)))
+        m = int(rng.integers(2, 4))
+        kind = gens.pick(rng, ("clustered", "uniform"))
     X = gens.matrix(rng, n, m, kind)
     if kind == "clustered" and rng.random() < 0.5:
         X = X + 100.0 * rng.normal(size=m)  # far from the origin: norms >> distances
@@ -64,7 +72,7 @@ def gen(rng, tier, index):
         kw["initialize"] = "random"
         kw["random_state"] = int(rng.integers(1000))
     r = rng.random()
-    e = int(rng.integers(2, (30 if big else n) + 1))
+    e = int(rng.integers(2, (7 if huge else (30 if big else n)) + 1))
     if r < 0.6 or big:
         nts = e
     elif r < 0.85:
@@ -76,7 +84,7 @@ def gen(rng, tier, index):
         e0 = int(rng.integers(1, e))
         chain = [e0, nts]
     settings = []
-    for _ in range(5 if tier == "quick" else 6):
+    for _ in range(3 if huge else (5 if tier == "quick" else 6)):
         if rng.random() < 0.5:
             settings.append({"full_fraction": float(gens.pick(rng, EXPLICIT))})
         else:
@@ -84,10 +92,16 @@ def gen(rng, tier, index):
             if s["clock"] == "steer":
                 s["target"] = float(gens.pick(rng, TARGETS))
             settings.append(s)
+    if huge:
+        settings[0] = {"full_fraction": 1.0}
+    for s_ in settings:  # the same configuration through another public route, the same numbers in another container,
+        s_["how"] = gens.pick(rng, forms.CONFIGURE)  # the object replaced by its copy between two links of the chain
+        s_["xform"] = gens.pick(rng, forms.PRESENT)
+        s_["carry"] = gens.pick(rng, forms.CARRY)
     past = None
     if rng.random() < 0.3:  # the estimator objects were fitted before, on another cloud of the same shape
         past = rng.normal(size=X.shape) * unit * float(10.0 ** rng.uniform(-1, 1))
-    return {"X": X, "kind": kind, "kw": kw, "chain": chain, "settings": settings, "unit": unit, "past": past}
+    return {"X": X, "kind": kind, "kw": kw, "chain": chain, "settings": settings, "unit": unit, "past": past, "huge": bool(huge)}
 
 
 def _fit_voronoi(case, setting, j):
@@ -98,7 +112,11 @@ def _fit_voronoi(case, setting, j):
     kw["full_fraction"] = setting["full_fraction"]
     if "n_trial_calculation" in setting:
         kw["n_trial_calculation"] = setting["n_trial_calculation"]
-    spec = {"dir": "sample", "cls": "VoronoiFPS", "kw": kw}
+    spec = {"dir": "sample", "cls": "VoronoiFPS", "kw": kw, "how": setting.get("how", "ctor"), "xform": setting.get("xform", "C")}
+    if spec["how"] != "ctor":
+        j.note("configured_not_by_constructor")
+    if spec["xform"] != "C":
+        j.note("non_default_containers")
     est = sel.make(spec)
     if case.get("past") is not None:
         est.n_to_select = max(2, min(len(X), sel.resolve_n(case["chain"][-1], len(X))))
@@ -111,6 +129,13 @@ def _fit_voronoi(case, setting, j):
     if setting.get("clock") and setting["clock"] != "real":
         clock = rt.ScriptedClock(setting["clock"], np.random.default_rng(setting["clock_seed"]), est=est, target=setting.get("target"))
     for li, nts in enumerate(case["chain"]):
+        if li > 0 and setting.get("carry", "same") != "same":
+            # the chain continues on a deep copy / an unpickled copy of the fitted object
+            tr.detach()
+            est = j.lib("carry", forms.carry, est, setting["carry"], j)
+            tr.attach(est)
+            if clock is not None:
+                clock.est = est
         est.n_to_select = nts
         if clock is not None:
             with rt.patched(vmod, "time", clock):
@@ -133,6 +158,8 @@ def run(case, j):
     j.tag(f"data:{case['kind']}", f"chain:{len(case['chain'])}", f"request:{type(case['chain'][-1]).__name__}", "unit:1" if case.get("unit", 1.0) == 1.0 else ("unit:small" if case["unit"] < 1 else "unit:large"))
     if case.get("unit", 1.0) < 1e-4:
         j.note("small_unit_cases")
+    if case.get("huge"):
+        j.note("more_than_2048_points")
     spec0 = {"dir": "sample", "cls": "FPS", "kw": {}}
     D = sel.fps_distance_matrix(spec0, X, None)
     scale = max(float(D.max()), float((X**2).sum(axis=1).max()), 1e-300)
